@@ -8,6 +8,7 @@ import InfluxQL.Lemmas.SelectPieces
 import InfluxQL.Lemmas.SelectClauses
 import InfluxQL.Lemmas.SelectCQ
 import InfluxQL.Lemmas.SelectRegexFamilies
+import InfluxQL.Lemmas.ShowRegexSrc
 import InfluxQL.Lemmas.IntLit
 import InfluxQL.Lemmas.RegexRoundTrip
 import InfluxQL.Lemmas.ShowPieces
@@ -4889,6 +4890,118 @@ end
 example : (match (runHandler 205 .parseSelectStatement_targetNotRequired).run (PState.init (selectTail exRe0) [] []) with
     | .ok (.select st, _) => st.print == exRe0.print
     | _ => false) = true := by decide +kernel
+
+
+/-! ### DELETE / DROP SERIES / SHOW SERIES with wide conditions and regex sources (`Lemmas/ShowRegexSrc.lean`) -/
+
+/-- What DELETE / DROP SERIES write, for *all* source lists and conditions. -/
+theorem deleteLike_print_wide (xs : List Source) (c : Option Expr) :
+    (Statement.deleteSeries xs c).print = tx "DELETE" ++ deleteLikeTextS xs c ∧
+    (Statement.dropSeries xs c).print = tx "DROP SERIES" ++ deleteLikeTextS xs c := by
+  have p1 : (Statement.deleteSeries xs c).print = tx "DELETE" ++ clauseFrom xs ++ clauseWhere c := rfl
+  have p2 : (Statement.dropSeries xs c).print = tx "DROP SERIES" ++ clauseFrom xs ++ clauseWhere c := rfl
+  rw [p1, p2, clauseFrom_srcs, clauseWhere_eq]
+  simp only [deleteLikeTextS, List.append_assoc, and_self]
+
+/-- **Print → parse, DELETE / DROP SERIES, wide conditions and regex sources.** `[FROM x1, …] [WHERE cond]` (at least
+one of the two). Sources: measurements named or given by a regex (`measSrcOKB`: `m`, `rp.m`, `/re/`, `rp./re/` … with
+expressible names, regex sources of `RT.regexB`) that pass the handler's own restriction (`sourceRestriction`: no
+database, and for DROP SERIES no retention policy — every statement the handler returns satisfies it); condition of
+C03's wide class relative to the table of the input (`CondOKW`: calls, number / duration literals —
+`time > now() - 90m AND value >= 1.5`).
+
+Partial — excluded (producible by the parser): regex sources with newline / NUL / CR, ending in `\` or starting with `*`;
+conditions outside the wide class (call names needing quotes or changed by the table, the negated-operand trees,
+non-canonical decimals); sources with an empty name (`empty-identifier-not-printed`). -/
+theorem deleteLike_print_parse_wide_partial (fuel : Nat) (s : PState) (xs : List Source) (c : Option Expr) (k : Str)
+    (hx : ∀ y ∈ xs, measSrcOKB y = true) (hc : CondOKW s.lowerTbl c) (hne : ¬ (c = none ∧ xs = []))
+    (hk : Follow k [.FROM, .COMMA, .WHERE]) (hs : s.Before (deleteLikeTextS xs c ++ k)) :
+    (sourceRestriction false xs = none →
+      wp (runHandler fuel .parseDeleteStatement) s
+        (fun st s' => st = .deleteSeries xs c ∧ RT.Stand s' k) (· = .fuel)) ∧
+    (sourceRestriction true xs = none →
+      wp (runHandler fuel .parseDropSeriesStatement) s
+        (fun st s' => st = .dropSeries xs c ∧ RT.Stand s' k) (· = .fuel)) := by
+  have hx' : ∀ y ∈ xs, MeasSrcOK y := fun y hy => measSrcOK_of y (hx y hy)
+  constructor
+  · intro hr
+    simp only [runHandler]
+    rw [wp_bind]
+    refine wp_mono (parseDeleteLike_printW fuel false s xs c k hx' hr hc hne hk hs) ?_ (fun _ h => h)
+    intro r s' ⟨hr, st⟩
+    subst hr
+    exact ⟨rfl, st⟩
+  · intro hr
+    simp only [runHandler]
+    rw [wp_bind]
+    refine wp_mono (parseDeleteLike_printW fuel true s xs c k hx' hr hc hne hk hs) ?_ (fun _ h => h)
+    intro r s' ⟨hr, st⟩
+    subst hr
+    exact ⟨rfl, st⟩
+
+/-- What SHOW SERIES writes, for all source lists and conditions and the sort lists the parser returns. -/
+theorem showSeries_print_wide (db : Str) (xs : List Source) (c : Option Expr) (sf : List SortField) (l o : Int)
+    (hsf : sortOKB sf = true) :
+    (Statement.showSeries db xs c sf l o).print = tx "SHOW SERIES" ++ showSeriesTextS db xs c sf l o := by
+  have p1 : (Statement.showSeries db xs c sf l o).print =
+      tx "SHOW SERIES" ++ clauseOn db ++ clauseFrom xs ++ clauseWhere c ++ clauseOrderBy sf ++
+        clausePos "LIMIT" l ++ clausePos "OFFSET" o := rfl
+  rw [p1, clauseFrom_srcs, clauseWhere_eq, clauseOn_onDbText, (clausePos_eq l).1, (clausePos_eq o).2.1,
+    clauseOrderBy_eq sf hsf]
+  simp only [showSeriesTextS, List.append_assoc]
+
+/-- **Print → parse, SHOW SERIES, wide conditions, regex sources, ORDER BY.**
+`[ON db] [FROM x1, …] [WHERE cond] [ORDER BY [time] ASC|DESC] [LIMIT l] [OFFSET o]`: sources named (`db.rp.m` / `db..m` /
+`rp.m` / `m`) or regex (`/re/`, `rp./re/`, `db../re/`, `db.rp./re/`) — `measSrcOKB` —, condition of the wide class,
+the sort lists `parseOrderBy` returns (`sortOKB`), limit and offset in the parser's range.
+
+Partial — excluded as in `deleteLike_print_parse_wide_partial` (regex sources outside `RT.regexB`, conditions outside the
+wide class, empty names). -/
+theorem showSeries_print_parse_wide_partial (fuel : Nat) (s : PState) (db : Str) (xs : List Source) (c : Option Expr)
+    (sf : List SortField) (l o : Int) (k : Str)
+    (hexdb : Expressible db) (hx : ∀ y ∈ xs, measSrcOKB y = true) (hc : CondOKW s.lowerTbl c) (hsf : sortOKB sf = true)
+    (hl : 0 ≤ l ∧ l ≤ maxInt64) (ho : 0 ≤ o ∧ o ≤ maxInt64) (hk : Follow k showSeriesStop)
+    (hs : s.Before (showSeriesTextS db xs c sf l o ++ k)) :
+    wp (runHandler fuel .parseShowSeriesStatement) s
+      (fun st s' => st = .showSeries db xs c sf l o ∧ RT.Stand s' k) (· = .fuel) := by
+  simp only [runHandler]
+  exact parseShowSeries_printW fuel s db xs c sf l o k hexdb (fun y hy => measSrcOK_of y (hx y hy)) hc hsf hl ho hk hs
+
+/-- Non-vacuity: `DELETE FROM /cpu.*/, rp./a\/b/, "my m" WHERE time > now() - 90m AND value >= 1.5` (DROP SERIES rejects the
+retention policy) and `SHOW SERIES ON "my db" FROM db.rp./^x/, cpu WHERE … ORDER BY time DESC LIMIT 10`. -/
+def exDelSrcs : List Source :=
+  [.measurement (reM [] [] "cpu.*".toList), .measurement (reM [] "rp".toList "a/b".toList), qualSrc ([], [], "my m".toList)]
+def exSeriesSrcs : List Source :=
+  [.measurement (reM "db".toList "rp".toList "^x".toList), qualSrc ([], [], "cpu".toList)]
+def exDelTextW : Str := deleteLikeTextS exDelSrcs exCondW
+def exSeriesTextW : Str :=
+  showSeriesTextS "my db".toList exSeriesSrcs exCondW [⟨"time".toList, false⟩] 10 0
+
+example : exDelTextW = " FROM /cpu.*/, rp./a\\/b/, \"my m\" WHERE time > now() - 90m AND value >= 1.5".toList ∧
+    exSeriesTextW = (" ON \"my db\" FROM db.rp./^x/, cpu WHERE time > now() - 90m AND value >= 1.5 ORDER BY time DESC " ++
+      "LIMIT 10").toList ∧
+    sourceRestriction false exDelSrcs = none ∧ sourceRestriction true exDelSrcs ≠ none := by decide +kernel
+
+section
+attribute [local irreducible] wp
+example : wp (runHandler 200 .parseDeleteStatement) (PState.init exDelTextW [] [])
+    (fun st s' => st = .deleteSeries exDelSrcs exCondW ∧ RT.Stand s' [eofRune]) (· = .fuel) :=
+  (deleteLike_print_parse_wide_partial 200 (PState.init exDelTextW [] []) exDelSrcs exCondW [eofRune] (by decide +kernel)
+    (show CondOKW [] exCondW by decide +kernel) (by decide +kernel) (Follow.eof _ (by decide))
+    (init_before exDelTextW (by decide +kernel))).1 (by decide +kernel)
+
+example : wp (runHandler 200 .parseShowSeriesStatement) (PState.init exSeriesTextW [] [])
+    (fun st s' => st = .showSeries "my db".toList exSeriesSrcs exCondW [⟨"time".toList, false⟩] 10 0 ∧
+      RT.Stand s' [eofRune]) (· = .fuel) :=
+  showSeries_print_parse_wide_partial 200 (PState.init exSeriesTextW [] []) "my db".toList exSeriesSrcs exCondW
+    [⟨"time".toList, false⟩] 10 0 [eofRune] (by decide +kernel) (by decide +kernel)
+    (show CondOKW [] exCondW by decide +kernel) (by decide +kernel) (by decide) (by decide) (Follow.eof _ (by decide))
+    (init_before exSeriesTextW (by decide +kernel))
+end
+
+example : (match (runHandler 200 .parseDeleteStatement).run (PState.init exDelTextW [] []) with
+    | .ok (st, _) => st.print == tx "DELETE" ++ exDelTextW
+    | .error _ => false) = true := by decide +kernel
 
 
 end InfluxQL.C02
